@@ -1,6 +1,7 @@
 (* C10 — only strong public keys are certified (the panic-freedom half is tested, not proved,
    except for keymaster's own address-extension decoder, see C11). *)
-From KM Require Import Base.Bytes Model.KeyStrength Proofs.KeyStrength Model.IPExt Proofs.IPExt Model.ClaimAccess Proofs.ClaimAccess.
+From KM Require Import Base.Bytes Model.KeyStrength Proofs.KeyStrength Model.IPExt Proofs.IPExt Model.ClaimAccess Proofs.ClaimAccess Model.PemWalk Proofs.PemWalk.
+Import ListNotations.
 
 Theorem c10_strong : forall k, validate k = true ->
   match k with
@@ -65,10 +66,75 @@ Theorem c10_disagreeing_parsers_refuted : exists p k, pipeline2 p = Signed k /\ 
 Proof. exact pipeline2_disagree_refuted. Qed.
 Print Assumptions c10_disagreeing_parsers_refuted.
 
-Theorem c10_weak_is_client_error_every_path : forall path v s,
+(* A weak, unknown or unparsable key is refused with a client-error status on every path UNDER EVERY
+   CONFIGURATION: whatever the operator's key deny list holds, whether or not the path consults it when
+   it issues, whatever the fingerprint of the key is or whether it has one at all (keys without an SSH
+   wire form - P-224, X25519, unknown types - have none).  The deny look-up of the model runs after the
+   strength check; c10_deny_before_strength_refuted is the other order. *)
+Theorem c10_weak_is_client_error_every_path : forall consults cfg path v s fp,
+  (forall k, v = Some k -> validate (snd k) = false) -> pipeline_cfg consults cfg path v s fp = ClientError.
+Proof. exact pipeline_cfg_weak_is_client_error. Qed.
+Print Assumptions c10_weak_is_client_error_every_path.
+
+(* the statement of the earlier rounds (one configuration) is the instance "not consulted" *)
+Theorem c10_weak_is_client_error_one_configuration : forall path v s,
   (forall k, v = Some k -> validate (snd k) = false) -> pipeline_of path v s = ClientError.
 Proof. exact pipeline_of_weak_is_client_error. Qed.
-Print Assumptions c10_weak_is_client_error_every_path.
+Print Assumptions c10_weak_is_client_error_one_configuration.
+
+(* issued under a configuration => strong, and - where the path consults the list - not on it *)
+Theorem c10_pipeline_every_configuration : forall consults cfg path v s fp k,
+  (parses_twice path = true -> s = v) -> pipeline_cfg consults cfg path v s fp = Signed k ->
+  validate k = true /\ (consults = true -> deny_lookup cfg fp = NotDenied).
+Proof. exact pipeline_cfg_strong. Qed.
+Print Assumptions c10_pipeline_every_configuration.
+
+(* The look-up placed BEFORE the strength check, its failure answered as an internal error: a weak key
+   that has no SSH form gets a server error as soon as the list is not empty - and with the default
+   (empty) list that pipeline is indistinguishable from the right one, which is why the configuration
+   has to be a dimension of the check. *)
+Theorem c10_deny_before_strength_refuted :
+  (exists cfg path v s fp, (forall k, v = Some k -> validate (snd k) = false) /\
+                           pipeline_deny_first cfg path v s fp = ServerError) /\
+  (forall cfg path v s fp, deny_list cfg = [] -> pipeline_deny_first cfg path v s fp = pipeline_of path v s).
+Proof. split; [exact pipeline_deny_first_refuted|exact pipeline_deny_first_empty_list]. Qed.
+Print Assumptions c10_deny_before_strength_refuted.
+
+(* Which block of a submitted PEM text is the key (cloud-role body, the pubkeyfile of the X.509 paths):
+   keymaster's code on top of pem.Decode never panics and answers every text whose selected key is weak,
+   unparsable or absent - no block, first block of another type, bytes after the last block - with a
+   client error; a certificate is only issued for the FIRST block, of type PUBLIC KEY, holding a strong
+   key.  A walk that skips blocks of other types is total only if the nil test is repeated inside the
+   loop (c10_pem_skip_unguarded_refuted: it panics exactly on a block of another type followed by bytes
+   that are not a complete block). *)
+Theorem c10_pem_walk_total : forall path t,
+  pem_pipeline path t <> Panic /\
+  ((forall x k, select_first t = Ok x -> blk_key x = Some k -> validate (snd k) = false) ->
+   pem_pipeline path t = Ok ClientError).
+Proof. intros path t. split; [exact (pem_pipeline_total path t)|exact (pem_pipeline_weak_is_client_error path t)]. Qed.
+Print Assumptions c10_pem_walk_total.
+
+Theorem c10_pem_walk_sound : forall path t k, pem_pipeline path t = Ok (Signed k) ->
+  validate k = true /\ exists x r, blocks t = x :: r /\ is_pubkey x = true /\ option_map snd (blk_key x) = Some k.
+Proof. exact pem_pipeline_signed. Qed.
+Print Assumptions c10_pem_walk_sound.
+
+Theorem c10_pem_skip_unguarded_refuted :
+  (forall t, select_skip true t <> Panic) /\
+  (exists t, select_skip false t = Panic) /\
+  (forall t, select_skip false t = Panic -> trailing t = true /\ exists x, In x (blocks t) /\ is_pubkey x = false).
+Proof. split; [exact select_skip_guarded_total|split; [exact select_skip_unguarded_panics|exact select_skip_unguarded_needs_both]]. Qed.
+Print Assumptions c10_pem_skip_unguarded_refuted.
+
+(* The pubkey form parameter of the two role paths (first value of a repeated parameter, empty = missing,
+   base64url without padding, PKIX DER): every list of values whose first value is empty, not base64url,
+   not a key or a weak key is a client error; a certificate is issued only for the key of the FIRST value. *)
+Theorem c10_role_parameter : forall path values,
+  ((forall kv r, values = PDer (Some kv) :: r -> validate (snd kv) = false) -> param_pipeline path values = ClientError) /\
+  (forall k, param_pipeline path values = Signed k ->
+             validate k = true /\ exists kv r, values = PDer (Some kv) :: r /\ snd kv = k).
+Proof. intros path values. split; [exact (param_pipeline_weak_is_client_error path values)|exact (param_pipeline_signed path values)]. Qed.
+Print Assumptions c10_role_parameter.
 
 (* Keymaster's own code on the structure of a (signature-verified) token never panics: for EVERY JSON
    value as payload - claims absent, null, of any other JSON type, arrays empty or nested - the claim
